@@ -165,6 +165,10 @@ impl GenerationPass for AvailableValuePass {
                 if node.calls_to().is_some() {
                     out_reg_n -= Register::return_addr_set().iter();
                 }
+                // An environment call overwrites its result registers
+                if let Some((_, rets)) = node.known_ecall_signature() {
+                    out_reg_n -= rets.iter();
+                }
                 if let Some((reg, reg_value)) = node.gen_reg_value() {
                     out_reg_n.insert(reg, reg_value);
                 }
